@@ -73,10 +73,20 @@ impl SendWindow {
 
     /// Update the sending window level when a new BTP segment had arrived,
     /// based on the ACK seq num in the incoming packet (if any).
-    fn accept_incoming(&mut self, hdr: &BtpHdr) {
+    fn accept_incoming(&mut self, hdr: &BtpHdr) -> Result<(), Error> {
         let Some(ack_seq_num) = hdr.get_ack() else {
-            return;
+            return Ok(());
         };
+
+        // Only a segment which was sent and is not acknowledged yet can be acknowledged
+        let outstanding = self.window_size - self.level;
+        if (Wrapping(self.last_sent_seq_num) - Wrapping(ack_seq_num)).0 >= outstanding {
+            warn!(
+                "RX data integrity failure: ACK for a sequence number which is not awaiting one: {}",
+                ack_seq_num
+            );
+            return Err(ErrorCode::InvalidData.into());
+        }
 
         if self.last_sent_seq_num == ack_seq_num {
             self.level = self.window_size;
@@ -114,6 +124,8 @@ impl SendWindow {
             self.level = self.window_size - unacknowledged;
             self.sent_at = Instant::now();
         }
+
+        Ok(())
     }
 
     /// Return true if the sending window is full.
@@ -692,8 +704,9 @@ impl Session {
             payload.len()
         );
 
+        // The ACK goes first, so that a segment refused because of it leaves no payload behind
+        self.send_window.accept_incoming(&hdr)?;
         self.recv_window.accept_incoming(&hdr, payload, self.mtu)?;
-        self.send_window.accept_incoming(&hdr);
 
         Ok(())
     }
